@@ -24,9 +24,9 @@ def has_task_object(t):
     return t[0] == 'call' and t[1] == 'apply' and len(t[2]) == 2 and t[2][1] == ('p', 'config')
 
 
-def registry_key_branches(A):
+def registry_key_branches(A, parameter_mode=True):
     """Terms of the registry key tested with `in` in Chain._create_task, restricted to TaskParameterConfig configs
-    (name/key properties kept as references)."""
+    (or, with parameter_mode=False, to plain configs); name/key properties kept as references."""
     fct = A.func('Chain._create_task')
     regs = [p for p in fct.params if 'registry' in p]
     tests = [n.left for n in A.typer.own_nodes(fct) if isinstance(n, ast.Compare) and len(n.ops) == 1 and isinstance(n.ops[0], (ast.In, ast.NotIn)) and regs and src(n.comparators[0]) == regs[0]]
@@ -49,9 +49,9 @@ def registry_key_branches(A):
         if id(t) in memo:
             return memo[id(t)][1]
         if t and t[0] == 'cond' and is_tpc(t[1]):
-            r = restrict(t[2])
+            r = restrict(t[2] if parameter_mode else t[3])
         elif t and t[0] == 'cond' and t[1][0] == 'not' and is_tpc(t[1][1]):
-            r = restrict(t[3])
+            r = restrict(t[3] if parameter_mode else t[2])
         else:
             r = tuple(restrict(x) for x in t)
         memo[id(t)] = (t, r)
@@ -225,6 +225,18 @@ def run(A, R: Report, thorough: bool):
             for a, b in (t[1], t[1][::-1]))
         R.check(ok, 'R13.3', 'Chain._create_task: parameter-mode key', key_of('key', pretty(t)[:160]), 'key = (slugname, storage key) of the new task',
                 f'registry key is {pretty(t)[:200]}: anything less shares different computations, anything more (config, context, chain) splits identical computations into separate objects',
+                witness=[pretty(t)[:300]], where=where(fct))
+    # name mode: tasks of two configs are the same computation only if they come from the same config *file*
+    R.rule('R13.3e', 'name-mode registry key names the config by its file (repr_name), not only by its name', floor=1)
+    nb = registry_key_branches(A, parameter_mode=False)
+    if not nb:
+        R.undecided('R13.3e', 'Chain._create_task', 'name-mode key not recognised', where=where(fct))
+    for t in nb:
+        from ..terms import contains
+        by_file = contains(t, lambda x: isinstance(x, tuple) and x and x[0] in ('ref', 'attr') and any(isinstance(y, str) and y.split('.')[-1] in ('repr_name', 'repr_name_without_namespace', '_filepath') for y in x[1:3]))
+        ident = t[0] == 'tuple' and any(a[0] == 'attr' and a[2] == 'slugname' for a in t[1])
+        R.check(by_file and ident, 'R13.3e', 'Chain._create_task: name-mode key', key_of('name-key', pretty(t)[:160]), 'key = (slugname, config file)',
+                f'name-mode registry key is {pretty(t)[:200]}: configs with the same file name in different directories (exp1/model.json, exp2/model.json) share one task object although their parameters differ',
                 witness=[pretty(t)[:300]], where=where(fct))
     check_registry_reuse(A, R, 'R13.3b')
     # the storage key doubles as the sharing key: it must chain every input (else different computations share one object)
